@@ -65,6 +65,14 @@ CLAIMED = {
          "(non-zero, not live in the association), TeidNonZeroAndUnique (against every TEID chosen and not yet released, across associations) and ReportedEqualsProgrammed (pdrLookup entries carry the reported SEID and TEIDs).",
          "The retry budget itself is not asserted (refusal is legal in the R-spec whenever the source collided); exhaustion of the TEID space is out of reach at the implementation. " + TRUST,
          "5 C07"),
+ "C01": ("TLA+ R-spec Pfcp/TraceE2E with taint: IE-tree mutation lattice and garbage injected into the real agent process; TLC judges survival, at-most-one response and the unchanged behaviour of untainted peers",
+         "Every single IE-level mutation (drop, duplicate, empty, retype, truncate, IPv6-only, inner-length corruption, reorder, zero-fill) at every position of the IE tree of every message type the agent "
+         "dispatches (requests and responses), truncated / malformed flow descriptions, seeded double mutations and garbage datagrams (random bytes, every truncation, corrupt header fields, oversized first datagram) "
+         "are injected in association/session states of a target peer (2 states quick, 6 thorough). After each datagram a heartbeat on the same peer and a complete establish/delete on another association run; "
+         "the trace is validated by TLC: the agent's death is an event no action consumes (crash site = first repository frame), an injected datagram has at most one answer, and the probe steps satisfy the C02 invariants "
+         "and TablesAreImage for untainted sessions.",
+         "The byte-level garbage is sampled; what a mutated-but-accepted message does to the target peer's own sessions is deliberately unconstrained (taint). " + TRUST,
+         "5 C01"),
 }
 
 def hooks_commits():
